@@ -278,6 +278,13 @@ def run(tier, replay_file=None):
         seen = set()
         def rep(m, what):
             if m is None: return
+            if not bounded and 'panicked' in what:
+                # a panic while refusing a location: replay a family of long illegal locations with multi-byte characters at every offset
+                cases_ = [{'op': 'response', 'kind': fn, 'location': '/' + 'a' * k + '\u00e9\u20ac\n' + 'b' * 300} for k in list(range(120, 132)) + list(range(250, 260))]
+                nats = replay(cases_)
+                bad_ = [c_['location'][:4] + f'..(k={len(c_["location"])})' for c_, n_ in zip(cases_, nats) if not n_.get('as_specified')]
+                chk.counterexample(f'{what}; long illegal locations natively: {[str(n_)[:80] for n_ in nats if not n_.get("as_specified")][:3]}', cases_[0], bool(bad_), role='response:' + fn + ':panic')
+                return
             if not bounded: report(chk, m, fn, what); return
             text = bytes(m.eval(b, model_completion=True).as_long() for b in loc.bs).decode('ascii')
             case = {'op': 'response', 'kind': fn, 'location': text}
@@ -306,7 +313,7 @@ def run(tier, replay_file=None):
     # ---- declared + explicit headers
     names = ['x-a', 'x-b']
     plans = []
-    for declared in ([], ['x-a'], ['x-a', 'x-b']):
+    for declared in ([], ['x-a'], ['x-a', 'x-b'], ['X-Upper']):       # serde names can be mixed case: header names are case-insensitive, sent in lower case
         for explicit in ([], ['x-a'], ['x-c'], ['x-a', 'x-a'], ['x-b', 'x-a'], ['x-c', 'x-c']):
             plans.append((declared, explicit))
     if tier == 'quick': plans = plans[::1]
@@ -336,7 +343,7 @@ def run(tier, replay_file=None):
             got = [(n, v.content) for n, v in resp.headers.entries if n != 'content-type']
             want = []
             for n, v in zip(declared, dvals):
-                if n not in explicit: want.append((n, v))
+                if n.lower() not in explicit: want.append((n.lower(), v))
             # explicit headers: all of them, in the order given; they replace declared ones of the same name
             exp_part = [(n, v) for n, v in zip(explicit, evals)]
             def multiset(xs): return sorted((n, str(v.term)) for n, v in xs)
